@@ -94,9 +94,13 @@ def install():
     if _INSTALLED:
         return
     _INSTALLED = True
-    for cls in (Calculation, Deduplication, Projection, Selection, Slice, Sort, PartialJoin, Identity, UnaryOperation):
+    from lsst.daf.relation import Reordering, RowFilter
+
+    # (the two extensible bases are wrapped too, in case they ever define what their subclasses inherit)
+    for cls in (Calculation, Deduplication, Projection, Selection, Slice, Sort, PartialJoin, Identity, UnaryOperation,
+                RowFilter, Reordering):
         _wrap_commute(cls)
-    for cls in (Projection, Selection, Slice, Sort, Identity):
+    for cls in (Calculation, Deduplication, Projection, Selection, Slice, Sort, Identity, UnaryOperation, RowFilter, Reordering):
         _wrap_simplify(cls)
     for cls in (Slice, Sort):
         _wrap_then(cls)
